@@ -641,7 +641,97 @@ def rule_shared_state(chk, prog, rule='C01.7-cached-arrays-never-updated-in-plac
   chk.at_least(rule, 10)
 
 
+def rule_factories(chk, prog):
+  """The named grids resolve their truncation: T<N> (quadratic) needs ≥ 3N+1 longitudes and ≥ (3N+1)/2 Gaussian latitudes for
+  alias-free products, TL<N> (linear) ≥ 2N+1 and ≥ (2N+1)/2 for exact transforms of fields — the premise of C01 (“for every grid
+  whose quadrature resolves its truncation”) must hold for the grids the library itself hands out."""
+  import re
+  rule = 'C01.8-factory-grids-resolve-their-truncation'
+  g = prog.cls(f'{SH}.Grid')
+  cons = g.find_method('construct')
+  ev = sym.Evaluator(prog, sym.Options(opaque={f'{SH}.Grid.construct'}))
+  # shape of construct: (M, L, lon nodes, lat nodes) as functions of (max_wavenumber W, gaussian_nodes G)
+  evc = sym.Evaluator(prog)
+  vc, _, _ = evc.run(cons)
+  A = alg.Algebra(evc)
+  W = A.name(lambda t: t == S('max_wavenumber'), 'W', integer=True, nonnegative=True)
+  G = A.name(lambda t: t == S('gaussian_nodes'), 'G', integer=True, positive=True)
+  def fld(name):
+    if vc.k == 'obj':
+      return util.field(vc, name)
+    kw = util.call_kwargs(vc) if vc.k == 'call' else {}
+    return kw.get(name)
+  shape = {n_: fld(n_) for n_ in ('longitude_wavenumbers', 'total_wavenumbers', 'longitude_nodes', 'latitude_nodes')}
+  chk.require(all(v_ is not None for v_ in shape.values()), f'{SH}.Grid.construct: cannot read the constructed grid shape')
+  e = {n_: A.conv(v_) for n_, v_ in shape.items()}
+  chk.check(alg.equal(e['longitude_wavenumbers'], W + 1) and alg.equal(e['total_wavenumbers'], W + 2), rule, f'{SH}.Grid.construct: wavenumbers 0 … max_wavenumber (M = W + 1) and one extra total wavenumber (L = W + 2)',
+            f"M = {e['longitude_wavenumbers']}, L = {e['total_wavenumbers']}", (cons.file, cons.lineno), 'W + 1, W + 2', f"{e['longitude_wavenumbers']}, {e['total_wavenumbers']}")
+  n = 0
+  for name, fi in sorted(g.methods.items()):
+    mt = re.fullmatch(r'(TL|T)(\d+)', name)
+    if not mt or not fi.is_classmethod():
+      continue
+    kind, N = mt.group(1), int(mt.group(2))
+    v, _, _ = ev.run(fi)
+    site, loc = f'{SH}.Grid.{name}', (fi.file, fi.lineno)
+    ok = v.k == 'call' and util.callee_name(v) == 'construct'
+    kw = util.call_kwargs(v) if ok else {}
+    w_, g_ = kw.get('max_wavenumber'), kw.get('gaussian_nodes')
+    ok = ok and w_ is not None and g_ is not None and w_.k == 'const' and g_.k == 'const'
+    if not chk.check(ok, rule, f'{site}: constructs the grid from literal (max_wavenumber, gaussian_nodes)', sym.show(v, maxdepth=2)[:120], loc):
+      continue
+    n += 1
+    wv, gv = int(w_.a[0]), int(g_.a[0])
+    lon, lat = int(e['longitude_nodes'].subs({W: wv, G: gv})), int(e['latitude_nodes'].subs({W: wv, G: gv}))
+    need = (3 if kind == 'T' else 2) * wv + 1
+    chk.check(wv == N, rule, f'{site}: the truncation wavenumber is the one in the name', f'max_wavenumber={wv}', loc, str(N), str(wv))
+    chk.check(lon >= need and 2 * lat >= need, rule, f'{site}: {lon} × {lat} nodes resolve the {"quadratic" if kind == "T" else "linear"} truncation {wv} (need ≥ {need} longitudes, ≥ {need}/2 latitudes)',
+              f'gaussian_nodes={gv}', loc, f'≥ {need} × ≥ {(need + 1) // 2}', f'{lon} × {lat}')
+    chk.check(any(k_ == '**' for k_, _ in v.a[2]), rule, f'{site}: forwards the remaining options (spacing, offset, radius, implementation) to construct', str([k_ for k_, _ in v.a[2]]), loc)
+  # with_wavenumbers: order·M + 1 longitudes, half as many latitudes, L = M + 1
+  ww = g.find_method('with_wavenumbers')
+  for deal, order in (('linear', 2), ('quadratic', 3), ('cubic', 4)):
+    evw = sym.Evaluator(prog)
+    vw, _, _ = evw.run(ww, bind={'dealiasing': sym.const(deal)})
+    B = alg.Algebra(evw)
+    M = B.name(lambda t: t == S('longitude_wavenumbers'), 'M', integer=True, positive=True)
+    def fw(name):
+      if vw.k == 'obj':
+        return util.field(vw, name)
+      return (util.call_kwargs(vw) if vw.k == 'call' else {}).get(name)
+    ln, lt, tw = fw('longitude_nodes'), fw('latitude_nodes'), fw('total_wavenumbers')
+    ok = ln is not None and lt is not None and tw is not None
+    if ok:
+      lne = B.conv(ln)
+      slack = sp.simplify(lne - (order * (M - 1) + 1))
+      ok = bool(slack.is_nonnegative) and alg.equal(B.conv(tw), M + 1)
+      lt0 = util.strip(lt)
+      if lt0.k == 'call' and lt0.a[0].k == 'ext' and lt0.a[0].a[0] in ('math.ceil', 'numpy.ceil', 'int') and len(lt0.a[1]) == 1:
+        ok = ok and bool(sp.simplify(2 * B.conv(lt0.a[1][0]) - lne).is_nonnegative)   # ceil(x) ≥ x
+      else:
+        ok = ok and bool(sp.simplify(2 * B.conv(lt) - lne).is_nonnegative)
+    chk.check(ok, rule, f"{SH}.Grid.with_wavenumbers[{deal}]: ≥ {order}·(M − 1) + 1 longitudes, at least half as many latitudes, L = M + 1",
+              f'longitudes {sym.show(ln)[:60] if ln is not None else None}; latitudes {sym.show(lt)[:60] if lt is not None else None}', (ww.file, ww.lineno))
+  chk.at_least(rule, 3 * 15)
+
+
+def rule_metric(chk, prog, rule='C01.9-metric-factors'):
+  """cos θ and sec² θ on the nodal mesh are the functions of sin θ they claim to be (cos² + sin² = 1, sec²·cos² = 1)."""
+  g = prog.cls(f'{SH}.Grid')
+  ev = sym.Evaluator(prog)
+  for name, want in (('cos_lat', lambda s_: sp.sqrt(1 - s_**2)), ('sec2_lat', lambda s_: 1 / (1 - s_**2))):
+    f = g.find_method(name)
+    v, _, _ = ev.run(f)
+    A = alg.Algebra(ev)
+    s_ = A.name(lambda t: t.k == 'sub' and t.a[1] == sym.const(1) and sym.contains(t.a[0], lambda z: z.k == 'attr' and z.a[1] in ('nodal_axes', 'nodal_mesh')), 'sin_lat', real=True)
+    e = A.conv(v)
+    chk.check(alg.equal(e, want(s_)), rule, f'{SH}.Grid.{name} = ' + ('√(1 − sin²θ)' if name == 'cos_lat' else '1/(1 − sin²θ)'), str(e), (f.file, f.lineno), str(want(s_)), str(e))
+  chk.at_least(rule, 2)
+
+
 def run(chk, prog, tier):
+  rule_factories(chk, prog)
+  rule_metric(chk, prog)
   rule_shared_state(chk, prog)
   rule_legendre(chk, prog)
   rule_quadrature(chk, prog)
